@@ -405,16 +405,35 @@ def work_multisets(item, rec):
         operands = {"U_%d" % i: (comps, slice_rows(i, contents, idkind, two, flavour), i) for i in range(len(contents))}
     datasets = [DS(n, c, shuffled(r, seed)) for n, (c, r, _) in operands.items()]
     units, batch = [], []
-    for op in item["ops"]:
-        for u in statements(op, flavour, shape, idkind, two):
-            for name in operands:
-                t = "R_%d" % len(units)
-                units.append((t, u, name))
-                batch.append((t, R.render(u["stmt"], name), name))
+    pilot = None
+    if shape == "unpacked":
+        # a statement that raises does so on every operand of the same structure: every distinct statement runs first on
+        # one pilot operand (the multiset {null}); the ones that raise there are recorded once and not repeated on the others
+        pilot = "U_1"
+        ustmts = [u for op in item["ops"] for u in statements(op, flavour, shape, idkind, two)]
+        pres = run_batch([("P_%d" % i, R.render(u["stmt"], pilot), pilot) for i, u in enumerate(ustmts)], datasets, rec)
+        plan = []
+        for i, u in enumerate(ustmts):
+            if isinstance(pres["P_%d" % i], tuple):
+                plan.append((u, [pilot], pres["P_%d" % i]))
+                rec.count("statements_raising_on_the_pilot_operand_not_repeated_on_the_others")
+            else:
+                plan.append((u, list(operands), None))
+    else:
+        plan = [(u, list(operands), None) for op in item["ops"] for u in statements(op, flavour, shape, idkind, two)]
     results = {}
+    for u, names, fatal in plan:
+        for name in names:
+            t = "R_%d" % len(units)
+            units.append((t, u, name))
+            if fatal is not None:
+                results[t] = fatal
+            else:
+                batch.append((t, R.render(u["stmt"], name), name))
     per_run = 240 if shape == "unpacked" else 60
     for chunk in harness.chunks(batch, per_run):
         results.update(run_batch(chunk, datasets, rec))
+    fatal_without_having = set((u["op"], u["gkind"], u["form"], results[t][1]) for t, u, _ in units if isinstance(results[t], tuple) and u["having"] == "none")
     found = {}
     for t, u, name in units:
         ocomps, orows, index = operands[name]
@@ -428,7 +447,10 @@ def work_multisets(item, rec):
                 rec.add("rejected", ["%s over %s: %s" % (u["op"], flavour, got[1])])
                 continue
             rec.case(base + ("any-content",), got[1], n=n)
-            dims = (u["op"], u["gkind"], u["form"], u["having"], flavour if flavour != "duo" else "Integer", "any-input", got[1])
+            # a statement that raises only with its having clause is a matter of the having condition, not of the operator
+            construct = u["op"] if (u["having"] == "none" or (u["op"], u["gkind"], u["form"], got[1]) in fatal_without_having) else "having-" + u["having"]
+            cls = "any-input" + ("/grouping-leaves-no-identifier" if u["stmt"]["grouping"] is not None and not R.grouping_ids(u["stmt"], ocomps)[0] else "")
+            dims = (construct, u["gkind"], u["form"], u["having"], "Integer+Number" if flavour == "duo" else flavour, cls, got[1])
             if dims not in found:
                 found[dims] = ((0, ""), got[3], u, ocomps, orows, None)
             continue
